@@ -22,6 +22,7 @@ type Schedule struct {
 	Events []Event   `json:"events"`
 	Probes []string  `json:"probes"` // "liveness","claimAll","queries","redeleg","supply"
 	Every  int       `json:"every"`  // probe every n-th step (0/1 = every step)
+	Det    int       `json:"det"`    // replay every step this many times on sibling branches (C19)
 	Note   string    `json:"note,omitempty"`
 }
 
@@ -416,7 +417,12 @@ func RunSchedule(w *World, s *Schedule, tw *TraceWriter, gen *Gen, n int) {
 			e = s.Events[i]
 		}
 		i++
-		res := w.Exec(e)
+		if e.Branch {
+			res, _, ps := w.branchExec(e, true)
+			tw.Write(Record{I: i, Ev: e.Ev, Args: e, Res: res, Post: ps, Probes: []Probe{}})
+			continue
+		}
+		res := w.ExecDet(e, s.Det)
 		post := w.Project(w.Ctx)
 		rec := Record{I: i, Ev: e.Ev, Args: e, Res: res, Post: &post, Probes: []Probe{}}
 		every := s.Every
